@@ -198,8 +198,8 @@ def verdict(world, out):
         if not started:
             return "OK-REJECTED", {"exception": e["type"], "msg": e["msg"][:200]}
         when = "after-sampling-finished" if loop_exit else "during-sampling"
-        return "FAILED-" + when, {"exception": e["type"], "msg": e["msg"][:300], "tb": e["tb"][-900:],
-                                  "points_spent": e.get("api_points")}
+        return "FAILED-" + when, {"exception": e["type"], "site": e.get("site"), "msg": e["msg"][:300],
+                                  "tb": e["tb"][-900:], "points_spent": e.get("api_points")}
     if last == 72:
         b = [r for r in recs if r["k"] == "budget_exhausted"]
         ph, pe = (b[-1].get("progress_half"), b[-1].get("progress_end")) if b else (None, None)
@@ -253,7 +253,10 @@ def sig_of(res):
         # the loop that burnt the budget and why it accepts nothing, not the line at which the counter ran out
         pe = d.get("progress_end") or {}
         return (res["verdict"], f"{pe.get('loop')}|{pe.get('cause')}")
-    return (res["verdict"], d.get("exception") or d.get("oracle"))
+    if d.get("exception"):
+        # identified by the failing call site: exception type @ innermost nessai function
+        return (res["verdict"], f"{d['exception']}@{d.get('site')}")
+    return (res["verdict"], d.get("oracle"))
 
 
 def pairwise_rows(options, rr, n_rows):
@@ -412,6 +415,10 @@ def body(r):
         if v == "NO-PROGRESS":
             # a stuck population loop is identified by the loop and the cause, whatever options led to it
             key = f"C20|NO-PROGRESS|{sig_of(res)[1]}"
+        elif (res.get("vdetail") or {}).get("exception"):
+            # an exception after sampling started is identified by exception type and failing call site; the
+            # (minimal) option set that triggers it is reported in the detail
+            key = f"C20|{v}|{sig_of(res)[1]}"
         else:
             key = f"C20|{v}|{'&'.join(sorted(key_labels))}|{sig_of(res)[1]}"
         r.report({"oracle": "C20-" + v, "key": key,
